@@ -75,12 +75,30 @@ package syncx
 //@   requires n >= 1
 //@   ensures  chanCap(result.pool) == n && chanLen(result.pool) == 0
 //@   allocates
+// tbWins counts the successful TryBorrow calls (permits actually taken)
+//@ ghost var tbWins int
 //@ func (l TimeoutLimit) TryBorrow
 //@   property C05
 //@   requires chanCap(l.limit.pool) >= 1 && 0 <= chanLen(l.limit.pool) && chanLen(l.limit.pool) <= chanCap(l.limit.pool)
+//@   ghost at returned#0: tbWins = tbWins + ite(ret, 1, 0)
 //@   ensures  result == (old(chanLen(l.limit.pool)) < chanCap(l.limit.pool))
 //@   ensures  chanLen(l.limit.pool) == old(chanLen(l.limit.pool)) + ite(result, 1, 0)
-//@   modifies chanLen(l.limit.pool)
+//@   ensures  tbWins == old(tbWins) + ite(result, 1, 0)
+//@   modifies chanLen(l.limit.pool), tbWins
+
+// Borrow: a permit is taken iff Borrow reports success - a timed-out Borrow holds nothing (other holders may return or
+// take permits while this one waits: the semaphore level is arbitrary, within its bounds, at every round of the loop)
+//@ func (cond *Cond) WaitWithTimeout
+//@   trusted
+//@   modifies nothing
+//@ func (l TimeoutLimit) Borrow
+//@   property C05
+//@   requires chanCap(l.limit.pool) >= 1 && 0 <= chanLen(l.limit.pool) && chanLen(l.limit.pool) <= chanCap(l.limit.pool) && l.cond != nil
+//@   ensures  tbWins == old(tbWins) + ite(result == nil, 1, 0)
+//@   ensures  implies(result != nil, result == ErrTimeout)
+//@   modifies chanLen(l.limit.pool), tbWins
+//@   loop 0: modifies chanLen(l.limit.pool)
+//@   loop 0: invariant 0 <= chanLen(l.limit.pool) && chanLen(l.limit.pool) <= chanCap(l.limit.pool) && tbWins == old(tbWins)
 
 //@ func (l TimeoutLimit) Return
 //@   property C05
